@@ -318,8 +318,9 @@ func (k *Keyed[K, V]) resetRoutineLocked(key K, conds ...func(K, V) bool) (exist
 	k.routines[key] = v
 	if k.ctx != nil {
 		v.start(k.ctx, prevExitedCh, false)
-	} else {
-		// remember the previous instance so that a later start waits for it
+	}
+	if v.exitedCh == nil {
+		// not started (no context, or nothing to run): remember the previous instance so that a later start waits for it
 		v.exitedCh = prevExitedCh
 	}
 
